@@ -495,3 +495,52 @@ func runR1811(c *core.Ctx) {
 		}
 	}
 }
+
+// runR1812 (R18.12): the extractor retires the whole period on every path. Every return of the function that exchanges
+// the ring buffers hands back the period record it found (never an empty one built on the spot) and has replaced it
+// with a fresh record: an early "nothing to report" return leaves the period's count in place, and those observations
+// are reported with the next period - or never, if the test looks at the wrong field.
+func runR1812(c *core.Ctx, extractors []*ssa.Function) {
+	c.Rule("R18.12", "the extractor retires the period on every path: each return hands back the period record found (not an empty one) after replacing it with a fresh record", 1)
+	if len(extractors) == 0 {
+		c.Undecided("R18.12", "metrics#extractor", "-", "no extractor found")
+		return
+	}
+	pv := &ssax.Prov{}
+	for _, fn := range extractors {
+		key := core.FuncName(fn) + "#retires-period"
+		var bad []string
+		isPeriodStore := func(ins ssa.Instruction) bool {
+			st, ok := ins.(*ssa.Store)
+			if !ok {
+				return false
+			}
+			// a store of a whole period record into the histogram (field of the parameter)
+			fa, ok := st.Addr.(*ssa.FieldAddr)
+			if !ok {
+				return false
+			}
+			return ssax.ShortType(st.Val.Type()) == ssax.ShortType(fa.Type().(*types.Pointer).Elem()) && strings.HasSuffix(ssax.ShortType(st.Val.Type()), "hdat")
+		}
+		for _, r := range ssax.Returns(fn) {
+			if len(r.Results) == 0 {
+				continue
+			}
+			srcs := pv.Sources(r.Results[0])
+			fromHist := ssax.Any(srcs, func(s ssax.Src) bool { return s.Kind == "param" && len(s.Path) >= 1 }) &&
+				ssax.All(srcs, func(s ssax.Src) bool { return (s.Kind == "param" && len(s.Path) >= 1) || s.Kind == "composite" })
+			if !fromHist {
+				bad = append(bad, "the return at "+c.P.Pos(r.Pos())+" hands back "+strings.Join(ssax.Strings(srcs), ",")+" instead of the period record of the histogram")
+			}
+		}
+		// every path from entry to a return passes a store of a fresh record
+		if hit, trail := (ssax.Reach{
+			Target: func(i ssa.Instruction) bool { _, ok := i.(*ssa.Return); return ok },
+			Avoid:  isPeriodStore,
+		}).FromBlock(fn.Blocks[0]); hit != nil {
+			bad = append(bad, "the extractor can return at "+c.P.Pos(hit.Pos())+" without having replaced the period record ("+strings.Join(ssax.BlockTrail(c.P.Fset, trail), " -> ")+")")
+		}
+		c.Check(len(bad) == 0, "R18.12", key, c.P.Pos(fn.Pos()), "every return hands back the record found and leaves a fresh one in its place",
+			strings.Join(bad, "; ")+": the period's observations are counted again with the next period, or its count is reported as 0")
+	}
+}
